@@ -274,17 +274,24 @@ static int upipe_dup_set_flow_def(struct upipe *upipe, struct uref *flow_def)
     flow_def = flow_def_dup;
 
     struct uchain *uchain;
+    struct upipe *previous = NULL;
     ulist_foreach (&upipe_dup->outputs, uchain) {
+        /* the probe of an output may release it while the new definition is
+         * announced: keep it until the next one has been looked up */
+        upipe_release(previous);
         struct upipe_dup_output *upipe_dup_output =
             upipe_dup_output_from_uchain(uchain);
+        previous = upipe_use(upipe_dup_output_to_upipe(upipe_dup_output));
         flow_def_dup = uref_dup(flow_def);
         if (unlikely(flow_def_dup == NULL)) {
+            upipe_release(previous);
             upipe_throw_fatal(upipe, UBASE_ERR_ALLOC);
             return UBASE_ERR_ALLOC;
         }
         upipe_dup_output_store_flow_def(
                 upipe_dup_output_to_upipe(upipe_dup_output), flow_def_dup);
     }
+    upipe_release(previous);
     return UBASE_ERR_NONE;
 }
 
